@@ -64,6 +64,30 @@ theorem eulerAngles_correct {K : Type} [Field K] [LinearOrder K] [IsStrictOrdere
     ((lookup "eulerAngles" [cfg]).out j).eval o env = (eulerT j).eval o env :=
   Family.walk_poly_sound ho (all_ok f_eulerAngles (by simp [families])) rfl rfl rfl (ks := [cfg]) hc (j := j) hj env
 
+/-! ### `quat_cast(mat3_cast q) = ±q` -/
+set_option maxHeartbeats 4000000 in
+set_option maxRecDepth 1000000 in
+/-- the table: on every decision path of `quat_cast` each product `r_i r_j` equals `q_i q_j` modulo `s² = arg` and `|q|² = 1` -/
+theorem castprod_ok : castOK lookup 0 = true ∧ castOK lookup 1 = true := by decide +kernel
+
+/-- **`quat_cast(mat3_cast(q)) = ±q`** for every unit quaternion: all ten products `r_i r_j` of the result equal `q_i q_j`
+    (both memory orders, every ordered-field semantics in which `sqrt` squares back on the four non-negative arguments
+    `4w², 4x², 4y², 4z²`; the selected square root must not vanish — it is the largest component, ≥ 1/2 in absolute value) -/
+theorem quat_cast_mat3_cast {K : Type} [Field K] [LinearOrder K] [IsStrictOrderedRing K] {o : Ops K} (ho : OrderedEqLike o)
+    (cfg : Nat) (hc : cfg = 0 ∨ cfg = 1) (j : Nat) (hj : j < 10) (env : Nat → K)
+    (hh : ∀ p ∈ castHyps, p.1.eval o env = p.2.eval o env)
+    (hd : (((lookup "castprod" [cfg]).out j).select o env).divOK o env) :
+    ((lookup "castprod" [cfg]).out j).eval o env = (castSpec j).eval o env := by
+  have hok : castOK lookup cfg = true := by rcases hc with rfl | rfl; exact castprod_ok.1; exact castprod_ok.2
+  simp only [castOK, Bool.and_eq_true, List.all_eq_true, List.mem_range] at hok
+  obtain ⟨path, _, hl⟩ := treeEqv_sound (implied_sound ho env true) _ _ (hok.2 j hj) (by intro cb hcb; cases hcb)
+  rw [Tree.eval_eq_select o env ((lookup "castprod" [cfg]).out j)]
+  simp only [Tree.select, castLeafOK, Bool.and_eq_true, List.any_eq_true] at hl
+  obtain ⟨_, c, _, hc2⟩ := hl
+  have := fracEqMod_sound ho.toFieldLike hc2 env hh hd
+    (by intro x hx; simp [castSpec, castPairs, qc, v, E.divisors] at hx)
+  simpa [Tree.eval] using this
+
 /-- non-vacuity -/
 example : (lookup "mat3ofprod" [1]).nIn = 8 ∧ (lookup "mat3ofprod" [1]).outs.length = 9 ∧
     f_euler3.keys.length = 12 ∧ families.length = 29 := by decide +kernel
